@@ -52,28 +52,29 @@ impl Qcow2IoSync {
 
     #[inline(always)]
     async fn write_at(&self, offset: u64, buf: &[u8]) -> Qcow2Result<()> {
-        let res = unsafe {
-            libc::pwrite(
-                self.fd,
-                buf.as_ptr() as *const libc::c_void,
-                buf.len(),
-                offset as libc::off_t,
-            )
-        };
+        // A write is done once all of it is in the file: go on after a
+        // short count, report the error that stopped it (ENOSPC, EFBIG)
+        // instead of success.
+        let mut done = 0;
+        while done < buf.len() {
+            let res = unsafe {
+                libc::pwrite(
+                    self.fd,
+                    buf[done..].as_ptr() as *const libc::c_void,
+                    buf.len() - done,
+                    (offset + done as u64) as libc::off_t,
+                )
+            };
 
-        if res < 0 {
-            Err("libc::pwrite failed".into())
-        } else {
-            if (res as usize) != buf.len() {
-                eprintln!(
-                    "short write: ask for {}, read {}, offset {:x}",
-                    buf.len(),
-                    res,
-                    offset
-                );
+            if res < 0 {
+                return Err("libc::pwrite failed".into());
             }
-            Ok(())
+            if res == 0 {
+                return Err("libc::pwrite made no progress".into());
+            }
+            done += res as usize;
         }
+        Ok(())
     }
 }
 
